@@ -194,16 +194,16 @@ fn templates() -> Vec<Template> {
         t("purge-denied", "purge-referenced", System,
           r#"PURGE :a REFERENCE POLICY "deny_if_referenced" CONFIRM "PURGE""#),
         // --- PURGE: the one statement that may remove the past, and only when it commits
-        t("purge-commits", "purge-unreferenced", System, r#"PURGE :n CONFIRM "PURGE""#),
+        t("purge-commits", "purge-unreferenced", System, r#"PURGE :m CONFIRM "PURGE""#),
         t("purge-then-key-conflict", "purge-with-clause-refused-at-commit", System,
           r#"MUTATE {
-            PURGE :n CONFIRM "PURGE"
+            PURGE :m CONFIRM "PURGE"
             CREATE CONCEPT ?dup { TYPE "Person" NAME "Impostor" SET FIELDS {key: "a"} }
           }"#),
         t("key-conflict-then-purge", "purge-with-clause-refused-at-commit", System,
           r#"MUTATE {
             CREATE CONCEPT ?dup { TYPE "Person" NAME "Impostor" SET FIELDS {key: "b"} }
-            PURGE :n CONFIRM "PURGE"
+            PURGE :m CONFIRM "PURGE"
           }"#),
         // --- principals
         t("writer-mixed", "unauthorized-clause-in-block", Writer,
